@@ -30,6 +30,11 @@ class Table:
 
     def s(self, k):
         if k == 0: return ""
+        # identifiers with underscores (their order as strings = their order as numbers: "_" < "__x" < "_x" < "va" .. < "x_")
+        if k == -3: return "_"
+        if k == -2: return "__x"
+        if k == -1: return "_x"
+        if k == 92: return "x_"
         if 1 <= k <= 19: return "t%d" % k
         if 20 <= k <= 29: return "abcdefghij"[k - 20]
         if 30 <= k <= 55: return "v" + chr(97 + k - 30)
@@ -192,7 +197,7 @@ class Case:
     pathjoin: templates are named d/<name>, literal references are relative (./<name>), a path join callback is set"""
 
     def __init__(self, templates, main, ctx=None, lim=DEFAULT_LIMIT, kind="", note=None, loader=False, pathjoin=False, layout=None,
-                 config=None, pjmode=None, wstyle=0, named_str=False):
+                 config=None, pjmode=None, wstyle=0, named_str=False, named_as=None):
         self.templates, self.main, self.ctx, self.lim, self.kind, self.note = templates, main, ctx or {}, lim, kind, note
         # layout: {template id: (directory, base name)} - templates live in several directories, literal references are
         # written relative to the referring template (same base name in two directories = same written name)
@@ -201,6 +206,9 @@ class Case:
         # join callback is an arbitrary mapping; wstyle: spelling of relative names; named_str: the main template is not
         # stored but rendered with Environment::render_named_str
         self.config, self.pjmode, self.wstyle, self.named_str = config or {}, pjmode, wstyle, named_str
+        # named_as: the (string) main template is rendered under the NAME of another, stored template - a distinct
+        # template that merely shares a name with a member of its own chain
+        self.named_as = named_as
         if named_str:
             # a template rendered from a string is not stored: nothing may refer to it by name
             refs = set(self.ctx.values())
@@ -247,7 +255,8 @@ class Case:
         named = None
         if self.named_str and self.main in self.templates and not isinstance(self.templates[self.main], str):
             named = srcs.pop(self.full_name(self.main))
-        r = {"templates": {} if self.loader else srcs, "main": self.full_name(self.main),
+        main_name = self.full_name(self.named_as if (named is not None and self.named_as is not None) else self.main)
+        r = {"templates": {} if self.loader else srcs, "main": main_name,
              "ctx": {S(x): S(v) for x, v in self.ctx.items()}, "ops": ["render"]}
         if self.loader: r["loader"] = srcs
         if self.pathjoin: r["path_join"] = self.pjmode or True
@@ -991,10 +1000,71 @@ def gen_join_callbacks(chk, cases):
                 cases.append(Case(t, MAIN, kind="join-mapping/%s/%s" % (mode, ename), pjmode=mode, named_str=named, loader=not named))
 
 
+def gen_named_roots(chk, cases):
+    """a string template rendered under the NAME of a stored template of its own chain (render_named_str("layout", "{% extends
+    'layout' %}..")): a distinct template that shares a name - the chain is acyclic; and a guarded self-extends taken once"""
+    G, N = VAR["g"], VAR["n"]
+    ROOT, P, GP = 4, 1, 2
+    for chainlen in (1, 2, 3):
+        stored = {}
+        for i in range(1, chainlen + 1):
+            last = i == chainlen
+            stored[i] = ([] if last else [("extends", lit(i + 1))]) + ([text("R(")] if last else [text("x")]) + \
+                        [blk(A, [text("s%d:" % i)] + ([] if last else [SUPER]))] + ([text(")"), blk(Cc, [text("c%d" % i)])] if last else [])
+        for same_as in range(1, chainlen + 1):
+            for form in ("literal", "variable", "conditional"):
+                for opt in (1, 2, 3):
+                    ctx = {}
+                    if form == "literal": head = ("extends", lit(1))
+                    elif form == "variable": head = ("extends", nvar("n")); ctx[N] = 1
+                    else: head = ("condext", G, lit(1)); ctx[G] = T("yes")
+                    t = dict(stored)
+                    t[ROOT] = [head, text("dropped"), blk(A, body_of("custom", opt)), blk(Cc, [text("cc"), SUPER])]
+                    for loader in (False, True):
+                        cases.append(Case(t, ROOT, ctx, kind="named-root/%d/%s" % (chainlen, form), named_str=True, named_as=same_as, loader=loader))
+                    cases.append(Case(t, ROOT, ctx, kind="named-root+pathjoin/%d/%s" % (chainlen, form), named_str=True, named_as=same_as, pathjoin=True))
+    # a template that uses itself as its layout exactly once (the guard is a variable it switches off)
+    for ctx in ({G: T("go")}, {}):
+        t = {1: [("condext", G, lit(1)), ("set", G, 0), text("("), blk(A, [text("c")]), text(")")]}
+        cases.append(Case(t, 1, dict(ctx), kind="guarded-self-extends"))
+        t = {1: [("condext", G, lit(1)), ("set", G, 0), text("("), blk(A, [text("c"), SUPER]), text(")")]}
+        cases.append(Case(t, 1, dict(ctx), kind="guarded-self-extends"))
+        t = {1: [("condext", G, lit(2)), text("(1)"), blk(A, [text("a1"), SUPER])], 2: [("condext", G, lit(1)), ("set", G, 0), text("(2"), blk(A, [text("a2")]), text(")")]}
+        cases.append(Case(t, 1, dict(ctx), kind="guarded-self-extends"))
+
+
+def gen_underscore_names(chk, cases):
+    """identifiers with underscores (_ , __x, _x, x_) as variables, macros, set-blocks, aliases and module names: an import
+    exposes them like any other name"""
+    U0, UU, UX, XU, G, M, K = -3, -2, -1, 92, VAR["g"], VAR["m"], VAR["k"]
+    LIB, BASE = 12, 5
+    lib = [("set", U0, T("u")), ("set", UU, T("dx")), ("macro", UX, [text("W"), ("print", V_PARAM), ("print", UU)]), ("setblock", XU, [text("sb"), ("print", U0)]),
+           ("set", K, T("plain")), text("body")]
+    world = {LIB: lib, BASE: [text("B("), blk(A, [text("ba")]), text(")")]}
+    uses = {
+        "import-as": [("import", lit(LIB), M), ("keys", M), text("|"), ("pattr", M, U0), ("pattr", M, UU), ("cattr", M, UX, T("2")), ("pattr", M, XU), ("pattr", M, K)],
+        "import-as-underscore": [("import", lit(LIB), UX), ("keys", UX), text("|"), ("pattr", UX, U0), ("cattr", UX, UX, T("2"), 1), ("print", UX)],
+        "from": [("from", lit(LIB), [(UX, UX), (U0, U0), (UU, UU), (XU, XU)]), ("call", UX, T("3")), ("print", U0), ("print", UU), ("print", XU)],
+        "from-aliases": [("from", lit(LIB), [(UX, K), (U0, XU), (K, U0)]), ("call", K, T("3")), ("print", XU), ("print", U0)],
+        "local": [("set", U0, T("l")), ("setblock", UU, [text("b"), ("print", U0)]), ("macro", UX, [("print", UU), ("print", V_PARAM)]), ("call", UX, T("4")), ("print", UU)],
+    }
+    def place(where, body):
+        if where == "top": return {1: [text("M(")] + body + [text(")")]}
+        if where == "for": return {1: [text("M("), ("for", 2, [text("(")] + body + [text(")")]), text(")")]}
+        if where == "macro": return {1: [("macro", VAR["w"], [text("(")] + body + [text(")")]), text("M("), ("call", VAR["w"], T("P")), text(")")]}
+        if where == "block": return {1: [text("M("), blk(A, [text("[")] + body + [text("]")]), text(")")]}
+        if where == "child-block": return {1: [("extends", lit(BASE)), blk(A, [text("[")] + body + [SUPER, text("]")])]}
+        if where == "reexport": return {1: [("import", lit(2), VAR["v"]), ("keys", VAR["v"]), ("print", VAR["v"])], 2: body}
+    for where in ("top", "for", "macro", "block", "child-block", "reexport"):
+        for uname, body in uses.items():
+            t = dict(world); t.update(place(where, body))
+            cases.append(Case(t, 1, {G: T("G")}, kind="underscore/%s/%s" % (where, uname)))
+
+
 def gen_variants(chk, cases):
     """the same configurations served lazily through a loader, and under a path join callback with relative names"""
     rng = chk.rng
-    base = [c for c in cases if not c.loader and not c.pathjoin and c.layout is None and not c.config]
+    base = [c for c in cases if not c.loader and not c.pathjoin and c.layout is None and not c.config and c.named_as is None]
     extra = []
     for k in range(12000 if chk.thorough else 1500):
         c = rng.choice(base)
@@ -1080,6 +1150,8 @@ def all_cases(chk):
     gen_alias_closures(chk, cases)
     gen_import_spellings(chk, cases)
     gen_join_callbacks(chk, cases)
+    gen_named_roots(chk, cases)
+    gen_underscore_names(chk, cases)
     gen_outside_fragment(chk, cases)
     gen_variants(chk, cases)
     return cases
@@ -1088,7 +1160,7 @@ def all_cases(chk):
 def replay_payload(c, extra):
     d = c.describe()
     d.update(extra)
-    d["tree"] = {"templates": repr(c.templates), "main": c.main, "ctx": repr(c.ctx), "lim": c.lim, "loader": c.loader, "pathjoin": c.pathjoin, "layout": repr(c.layout), "config": c.config, "pjmode": c.pjmode, "wstyle": c.wstyle, "named_str": c.named_str,
+    d["tree"] = {"templates": repr(c.templates), "main": c.main, "ctx": repr(c.ctx), "lim": c.lim, "loader": c.loader, "pathjoin": c.pathjoin, "layout": repr(c.layout), "config": c.config, "pjmode": c.pjmode, "wstyle": c.wstyle, "named_str": c.named_str, "named_as": c.named_as,
                  "texts": {str(k): v for k, v in TAB.text.items()}}
     d["how"] = "./check C06 --replay <this file>"
     return d
@@ -1100,7 +1172,7 @@ def load_replay(path):
         TAB.text[int(k)] = v
         TAB.rev[v] = int(k)
     return [Case(eval(rp["templates"]), rp["main"], eval(rp["ctx"]), rp["lim"], kind="replay", loader=rp.get("loader", False), pathjoin=rp.get("pathjoin", False), layout=eval(rp.get("layout", "None")),
-                 config=rp.get("config"), pjmode=rp.get("pjmode"), wstyle=rp.get("wstyle", 0), named_str=rp.get("named_str", False))]
+                 config=rp.get("config"), pjmode=rp.get("pjmode"), wstyle=rp.get("wstyle", 0), named_str=rp.get("named_str", False), named_as=rp.get("named_as"))]
 
 
 def main():
@@ -1177,7 +1249,7 @@ def main():
     chk.cov["distinct_nontrivial"] = len(nontriv)
     chk.cov["rule"] = ("exhaustive: every assignment of {absent, override, override + super() before, override + super() after} (+ nesting of c inside a) to blocks a, c for chains of 1-3 templates"
                        + (" and 4 templates" if chk.thorough else "; 4-template chains and the 3-block alphabet are seeded samples")
-                       + "; dynamic / conditional extends over all 2-template assignments + samples; EMPTY definitions at every level (exhaustive over one block for 2-4 templates); include / import placements (top level, for loop, macro, block, block of an extending template) x naming forms x targets; templates that exist but do not load (syntax error / failing loader) in include lists, with ignore missing, import, extends, render; a sample of all configurations served through Environment::set_loader and under a path join callback with relative names; histories of 3-200 missed include lookups (loops over include lists with missing candidates, ignore missing, in sequence) followed by includes / blocks / loops / nestings, at the default limit and at small limits right at the boundary; inheritance cycles of 2-4 templates whose members include / import / from-import / call macros / loop at their top level (before or after the extends tag); multi-directory layouts under the path join callback where the same written relative name names a different template per directory (include, list, ignore missing, loop, macro, block, import, from, extends, inherited blocks next to super(), a cross-directory cycle); modules defined through every defining construct (set, set-block incl. nested / with includes and loops, macros with closures, re-exporting from-import / import, loop-local sets) imported by import / from-import at every placement, under a discarding output and at the top level of extending templates; aliased from-imports inside macros / nested macros / loops / blocks while the original name is a template variable, macro, loop variable or context variable read by the same body; every spelling of using an import (m.f(), m["f"](), set f = m.f, from-import, aliases) x placements x environment configurations that must not matter (unknown-method callback declining / handling another name, custom formatter, auto-escape callback, whitespace settings, debug), the same configurations on a sample of all families; path join callbacks (documented one, prefixing, lower-casing) with referring templates at top level / in folders / rendered with render_named_str / with dotted names and four spellings of relative names; cycles, double extends, missing templates, include cycles, recursion depth boundaries, required blocks. "
+                       + "; dynamic / conditional extends over all 2-template assignments + samples; EMPTY definitions at every level (exhaustive over one block for 2-4 templates); include / import placements (top level, for loop, macro, block, block of an extending template) x naming forms x targets; templates that exist but do not load (syntax error / failing loader) in include lists, with ignore missing, import, extends, render; a sample of all configurations served through Environment::set_loader and under a path join callback with relative names; histories of 3-200 missed include lookups (loops over include lists with missing candidates, ignore missing, in sequence) followed by includes / blocks / loops / nestings, at the default limit and at small limits right at the boundary; inheritance cycles of 2-4 templates whose members include / import / from-import / call macros / loop at their top level (before or after the extends tag); multi-directory layouts under the path join callback where the same written relative name names a different template per directory (include, list, ignore missing, loop, macro, block, import, from, extends, inherited blocks next to super(), a cross-directory cycle); modules defined through every defining construct (set, set-block incl. nested / with includes and loops, macros with closures, re-exporting from-import / import, loop-local sets) imported by import / from-import at every placement, under a discarding output and at the top level of extending templates; aliased from-imports inside macros / nested macros / loops / blocks while the original name is a template variable, macro, loop variable or context variable read by the same body; every spelling of using an import (m.f(), m["f"](), set f = m.f, from-import, aliases) x placements x environment configurations that must not matter (unknown-method callback declining / handling another name, custom formatter, auto-escape callback, whitespace settings, debug), the same configurations on a sample of all families; path join callbacks (documented one, prefixing, lower-casing) with referring templates at top level / in folders / rendered with render_named_str / with dotted names and four spellings of relative names; string templates rendered under the name of a stored template of their own chain (parent, grandparent; literal / variable / conditional extends, super()), guarded self-extends taken once; identifiers with underscores (_, __x, _x, x_) as variables, macros, set-blocks, aliases and module names; cycles, double extends, missing templates, include cycles, recursion depth boundaries, required blocks. "
                        "Each case is rendered by the engine in a debug and a release build and evaluated by the extracted model and specification. "
                        "non-trivial = distinct (templates, context) with at least two templates whose render is a non-empty text or an error")
     chk.cov["exhaustive"] = False
